@@ -290,16 +290,212 @@ def _window(run: Run, model: PyModel) -> None:
     run.sample(dict(rule="C18.R2", offsets_before_today=offsets, clock=ast.unparse(ccall), format_keywords=kw))
 
 
+def _term_interp(model: PyModel):
+    """Interpreter in which library calls are uninterpreted terms (datetime.now(), timedelta(days=i), Path(x), x.strftime(f), s.format(**kw))."""
+    from ..absint import Interp
+    from ..absval import Opaque, Term
+
+    def fz(I, v, st):
+        return I.B.freeze_term(I, v, st)
+
+    def call_any(I, fv, args, kwargs, st, node):
+        if fv.cls.startswith("ext:"):
+            kw = tuple(sorted((k, fz(I, x, st)) for k, x in kwargs.items()))
+            return [(Term(fv.cls[4:], tuple(fz(I, a, st) for a in args) + ((("kw",) + kw,) if kw else ())), st)]
+        return None
+
+    def meth(I, recv, name, args, kwargs, st, node):
+        if recv.cls.startswith("ext:"):
+            kw = tuple(sorted((k, fz(I, x, st)) for k, x in kwargs.items()))
+            return [(Term(recv.cls[4:] + "." + name, tuple(fz(I, a, st) for a in args) + ((("kw",) + kw,) if kw else ())), st)]
+        return None
+
+    def binop(I, op, l, r, st):
+        return Term({ast.Add: "+", ast.Sub: "-"}.get(type(op), type(op).__name__), (fz(I, l, st), fz(I, r, st)))
+
+    def fmt(I, recv, args, kwargs, st, node):
+        kw = tuple(sorted((k, fz(I, x, st)) for k, x in kwargs.items()))
+        return [(Term("format", (recv, kw) + tuple(fz(I, a, st) for a in args)), st)]
+
+    return Interp(model, probes={"method:*": meth, "call:*": call_any, "binop": binop, "str.format": fmt}, max_states=4000)
+
+
+GROUPS = {"g": ("b", "@h", "a", "@h"), "h": ("d", "c{yyyymmdd[1]}"), "e": (), "k": ("@g", "@e", "b")}
+INPUTS = [("x", "@g", "y"), ("@h", "@h"), ("@k",), ("@e", "z"), (), ("b", "a", "b")]
+
+
+def _expected(names) -> list[str]:
+    out: list[str] = []
+    for n in names:
+        if n.startswith("@"):
+            out.extend(_expected(GROUPS[n[1:]]))
+        else:
+            out.append(n)
+    return out
+
+
+def _scenarios(run: Run, model: PyModel) -> bool:
+    """Evaluate expand_file_group_paths abstractly on a family of generic inputs: names are opaque markers chosen out of
+    alphabetical order, with repeats, a group used twice, nested and empty groups, so that sorting, de-duplication, a visited
+    set, appending at the end instead of in place or dropping a level all change the result.  Dates are uninterpreted terms."""
+    from ..absint import Raised, State
+    from ..absval import HObj, Ref, Term
+
+    I = _term_interp(model)
+    all_ok = True
+    n = 0
+    win = None
+    for inp in INPUTS:
+        st = State()
+        gm = st.alloc(HObj("dict", fields={k: st.alloc(HObj("list", items=list(v))) for k, v in GROUPS.items()}))
+        arg = st.alloc(HObj("list", items=list(inp)))
+        try:
+            res = I.run_function(F_EXPAND, [arg], {"file_group_map": gm}, st=st)
+        except Exception as e:
+            run.undecided("C18.R1", "expand_file_group_paths", f"cannot interpret the expansion abstractly: {type(e).__name__}: {e}")
+            return False
+        n += 1
+        for v, s in res:
+            imprecise = [x for x in s.imprecise if "format" not in x]
+            if isinstance(v, Raised) or imprecise or not isinstance(v, Ref):
+                run.undecided("C18.R1", "expand_file_group_paths", f"input {list(inp)}: " + (f"raises {v.exc}" if isinstance(v, Raised) else "; ".join(imprecise[:2]) or repr(v)))
+                all_ok = False
+                continue
+            got = []
+            for it in s.obj(v).items:
+                it = I.B.freeze_term(I, it, s)
+                # Path(<name or name.format(...)>)
+                nm = None
+                if isinstance(it, Term) and it.head.split(".")[-1] in ("Path", "PurePath") and it.args:
+                    a0 = it.args[0]
+                    if isinstance(a0, str):
+                        nm = a0
+                    elif isinstance(a0, Term) and a0.head == "format":
+                        nm = a0.args[0]
+                        win = win or a0
+                got.append(nm if nm is not None else repr(it)[:40])
+            want = _expected(inp)
+            ok = got == want
+            all_ok = all_ok and ok
+            what = []
+            if not ok:
+                if sorted(got) == sorted(want):
+                    what.append("same members in a different order")
+                elif set(got) == set(want):
+                    what.append("members repeated or de-duplicated")
+                else:
+                    what.append("members missing or extra")
+            run.check("C18.R1", f"expand({list(inp)}) = {want}", ok, "expand_file_group_paths", f"{list(inp)} -> {got}",
+                      f"with groups {GROUPS} the arguments {list(inp)} expand to {got}; in-place, in-order expansion gives {want} ({'; '.join(what)})", file=FILE)
+    run.floor("expansion scenarios", n, len(INPUTS))
+    # the window, read off the arguments handed to str.format
+    if win is None:
+        run.undecided("C18.R2", "expand_file_group_paths", "no member was formatted with the date fields")
+        return all_ok
+    kw = dict(win.args[1]) if len(win.args) > 1 else {}
+    run.check("C18.R2", "patterns receive `days` and `yyyymmdd`", set(kw) == {"days", "yyyymmdd"}, "file_groups", f"format keywords {sorted(kw)}", f"members are formatted with {sorted(kw)}, expected days and yyyymmdd", file=FILE)
+    days, ymd = kw.get("days"), kw.get("yyyymmdd")
+    days = list(days[1:]) if isinstance(days, tuple) and days and days[0] == "list" else None
+    ymd = list(ymd[1:]) if isinstance(ymd, tuple) and ymd and ymd[0] == "list" else None
+    if days is None or ymd is None:
+        run.undecided("C18.R2", "file_groups", "the date fields are not lists of terms")
+        return all_ok
+
+    def offset(t):
+        """now() - timedelta(days=k)  ->  (clock term, k)"""
+        if isinstance(t, Term) and t.head == "-" and isinstance(t.args[1], Term) and t.args[1].head.endswith("timedelta"):
+            td = t.args[1]
+            k = None
+            for a in td.args:
+                if isinstance(a, tuple) and a and a[0] == "kw":
+                    d = dict(a[1:])
+                    if set(d) == {"days"}:
+                        k = d["days"]
+                elif isinstance(a, int) and len(td.args) == 1:
+                    k = a
+            return t.args[0], k
+        if isinstance(t, Term) and t.head == "+" and isinstance(t.args[1], Term) and t.args[1].head.endswith("timedelta"):
+            c, k = offset(Term("-", t.args))
+            return c, (-k if isinstance(k, int) else None)
+        if isinstance(t, Term) and t.head.endswith(("now", "today")):
+            return t, 0
+        return None, None
+
+    offs = [offset(d) for d in days]
+    clocks = {repr(c) for c, _ in offs}
+    ks = [k for _, k in offs]
+    run.check("C18.R2", "window is today and the previous six days, nearest first", ks == [0, 1, 2, 3, 4, 5, 6], "file_groups", f"offsets {ks}",
+              f"`days` holds today minus {ks} days, expected [0, 1, 2, 3, 4, 5, 6]", file=FILE)
+    clock = offs[0][0] if offs else None
+    local = isinstance(clock, Term) and clock.head in ("datetime.datetime.now", "datetime.date.today", "datetime.now", "date.today") and not clock.args
+    run.check("C18.R2", "'today' is one reading of the local clock", len(clocks) == 1 and local, "file_groups", f"clock {sorted(clocks)}",
+              f"the window is anchored at {sorted(clocks)}: not a single reading of the user's local day", file=FILE)
+    ok = len(ymd) == len(days) and all(isinstance(y, Term) and y.head.endswith("strftime") and len(y.args) == 2 and y.args[0] == d and y.args[1] == "%Y%m%d" for y, d in zip(ymd, days))
+    run.check("C18.R2", "yyyymmdd[i] is days[i] formatted %Y%m%d", ok, "file_groups", f"yyyymmdd {[repr(y)[:40] for y in ymd[:2]]}", "yyyymmdd is not the window dates formatted with %Y%m%d", file=FILE)
+    run.sample(dict(rule="C18.R2", offsets_before_today=ks, clock=sorted(clocks)))
+    return all_ok
+
+
+def _memoised(run: Run, model: PyModel) -> None:
+    n = 0
+    for q in sorted(model.reachable([F_EXPAND])):
+        if not q.startswith("zorg.service.file_groups."):
+            continue
+        n += 1
+        f = model.funcs[q]
+        for d in f.node.decorator_list:
+            dn = ast.unparse(d.func if isinstance(d, ast.Call) else d)
+            target = dn.split(".")[-1]
+            if target in f.module.imports:
+                target = f.module.imports[target].split(".")[-1]
+            memo = "cache" in target.lower() or "memo" in target.lower()
+            run.check("C18.R2", f"{f.name}: not memoised", not memo, f.name, d,
+                      f"`@{dn}` memoises {f.name}: the day window is computed once per process, so a long-running process keeps yesterday's 'today' after midnight, "
+                      "and the returned lists are shared and mutable across calls", file=FILE, node=f.node)
+    mi = model.module_of("zorg.service.file_groups")
+    glob = [k for k, v in mi.assigns.items() if isinstance(v, (ast.List, ast.Dict, ast.Set)) or (isinstance(v, ast.Call) and ast.unparse(v.func) in ("set", "dict", "list", "defaultdict"))]
+    used = []
+    for q in sorted(model.reachable([F_EXPAND])):
+        if q.startswith("zorg.service.file_groups."):
+            used += [nm for nm in names_loaded(model.funcs[q].node) if nm in glob]
+    run.check("C18.R1", "no module-level mutable state is consulted", not used, "file_groups", used[0] if used else "-",
+              f"module-level container `{used[0] if used else ''}` is used by the expansion (state shared across calls and across the elements of one call)", file=FILE)
+    run.floor("functions of the expansion", n, 1)
+
+
+def _structural_shape_recognised(model: PyModel) -> bool:
+    """The two-function accumulator shape the structural proofs below are written for."""
+    if not (model.has_func(F_EXPAND) and model.has_func(F_GROUP)):
+        return False
+    for q in (F_EXPAND, F_GROUP):
+        fn = model.func(q).node
+        rets = [r for r in returns_of(fn) if r.value is not None]
+        if len(rets) != 1 or not isinstance(rets[0].value, ast.Name):
+            return False
+        acc = rets[0].value.id
+        if len([s for s in fn.body if isinstance(s, ast.For) and acc in mutated_names(s)]) != 1:
+            return False
+    g = model.func(F_GROUP).node
+    return len(clock_calls(g)) == 1 and any(isinstance(s, ast.For) and isinstance(s.iter, ast.Call) and ast.unparse(s.iter.func) == "range" for s in g.body)
+
+
 def check(run: Run) -> None:
     model = PyModel(run.repo)
-    run.rule("C18.R1", "list homomorphism: result list filled only by append/extend inside one loop over the input, in order; nothing else survives an iteration; no extra parameters / module state")
-    run.rule("C18.R2", "window: local today, offsets 0..6 days back in that order; days and yyyymmdd derive from the same dates")
-    run.rule("C18.R3", "'@' marker test, marker strip and recursive expansion through the same map agree in both functions")
-    _accumulator_loop(run, model, F_EXPAND, 0)
-    _accumulator_loop(run, model, F_GROUP, 0)
-    _signature_is_stateless(run, model)
-    _recursion_and_prefix(run, model)
-    _window(run, model)
-    run.units = dict(functions=[F_EXPAND, F_GROUP], file=FILE)
-    run.floor("C18 obligations", len(run.obligations), 20)
-    run.assumptions += ["cyclic group maps are excluded by the property statement", "str.format substitutes exactly the named fields"]
+    run.rule("C18.R1", "in place, in order: abstract evaluation of the expansion on a family of generic inputs (markers out of order, repeats, a group used twice, nested and empty groups) "
+                       "equals the recursive flattening; plus, when the code has the accumulator-loop shape, the list-homomorphism proof (append/extend only, one loop over the input, nothing survives an iteration)")
+    run.rule("C18.R2", "window: the date fields handed to str.format are [now - 0..6 days] of one reading of the local clock, yyyymmdd the same dates as %Y%m%d; nothing on the way is memoised")
+    run.rule("C18.R3", "'@' marker test, marker strip and recursive expansion through the same map agree (structural, when the shape is recognised; otherwise covered by the scenarios of R1)")
+    _scenarios(run, model)
+    _memoised(run, model)
+    if _structural_shape_recognised(model):
+        _accumulator_loop(run, model, F_EXPAND, 0)
+        _accumulator_loop(run, model, F_GROUP, 0)
+        _signature_is_stateless(run, model)
+        _recursion_and_prefix(run, model)
+        _window(run, model)
+    else:
+        run.proved("C18.R3", "shape not the two accumulator loops: recursion / marker agreement decided by the R1 scenarios only")
+    run.units = dict(functions=sorted(q for q in model.reachable([F_EXPAND]) if q.startswith("zorg.service.file_groups.")), file=FILE, scenarios=len(INPUTS))
+    run.floor("C18 obligations", len(run.obligations), 10)
+    run.assumptions += ["cyclic group maps are excluded by the property statement", "str.format substitutes exactly the named fields",
+                        "scenario evaluation is parametric in the names: the code may only test the '@' prefix, strip it, look the rest up and format"]
